@@ -50,6 +50,24 @@ static char *add_boundary_to_regex(zckCtx *zck, const char *regex,
     return regex_b;
 }
 
+/* The boundary is arbitrary text chosen by the server; quote every character
+ * that is special in a POSIX extended regular expression */
+static char *escape_boundary(const char *boundary) {
+    if(boundary == NULL)
+        return NULL;
+    char *escaped = zmalloc(strlen(boundary) * 2 + 1);
+    if(!escaped)
+        return NULL;
+    char *e = escaped;
+    for(const char *c = boundary; *c; c++) {
+        if(strchr(".[]{}()\\*+?|^$", *c))
+            *e++ = '\\';
+        *e++ = *c;
+    }
+    *e = '\0';
+    return escaped;
+}
+
 static bool create_regex(zckCtx *zck, regex_t *reg, const char *regex) {
     VALIDATE_BOOL(zck);
 
@@ -74,16 +92,23 @@ static bool gen_regex(zckDL *dl) {
     char *next = "\r?\n?--%s\r\n.*" \
                  "content-range: *bytes *([0-9]+) *- *([0-9]+) */[0-9]+";
     char *end =  "\r\n--%s--";
-    char *regex_n = add_boundary_to_regex(dl->zck, next, dl->boundary);
-    if(regex_n == NULL)
+    char *boundary = escape_boundary(dl->boundary);
+    if(boundary == NULL)
         return false;
+    char *regex_n = add_boundary_to_regex(dl->zck, next, boundary);
+    if(regex_n == NULL) {
+        free(boundary);
+        return false;
+    }
     dl->dl_regex = zmalloc(sizeof(regex_t));
     if(!dl->dl_regex || !create_regex(dl->zck, dl->dl_regex, regex_n)) {
         free(regex_n);
+        free(boundary);
         return false;
     }
     free(regex_n);
-    char *regex_e = add_boundary_to_regex(dl->zck, end, dl->boundary);
+    char *regex_e = add_boundary_to_regex(dl->zck, end, boundary);
+    free(boundary);
     if(regex_e == NULL)
         return false;
     dl->end_regex = zmalloc(sizeof(regex_t));
